@@ -219,14 +219,17 @@ def gen_case(rnd):
         # (two-digit components), a few of them without a usable date
         n = rnd.choice([25, 30, 30, 60, 100])
         rels = []
+        scattered = rnd.random() < 0.5      # maintenance lines: publish dates unrelated to the version order, more drafts
         for i in range(n):
             tag = 'v%d.%d.%d' % (i // 12 + 1, (i % 12) + (5 if rnd.random() < 0.3 else 0), rnd.choice([0, 0, 1, 10]))
             k = rnd.random()
             m = [('tag_name', tag)]
-            if k < 0.1:
+            if k < (0.25 if scattered else 0.1):
                 m.append(('published_at', None))
-            elif k < 0.15:
+            elif k < (0.3 if scattered else 0.15):
                 m.append(('published_at', 'not a date'))
+            elif scattered:
+                m.append(('published_at', rnd_ts(rnd)))
             elif k < 0.95:
                 m.append(('published_at', '20%02d-%02d-%02dT%02d:00:00Z' % (10 + i // 12, 1 + i % 12, 1 + rnd.randrange(28), rnd.randrange(24))))
             rels.append(Obj(m))
